@@ -457,12 +457,14 @@ def target_format_text():
                 except Exception as ex:       # noqa: BLE001
                     out = f"raised {type(ex).__name__}"
                 tag = f"[{name}, indices={idx}]"
+                NUMBER_OPTIONS = {"float_format", "double_precision", "decimal", "na_rep", "formatters", "precision"}      # what changes how a number is written
+                one = len(df.log) == 1 and not df.log[0][1] and not (set(df.log[0][2]) & NUMBER_OPTIONS)
                 if ext == "csv":
-                    ok = df.log == [("to_csv", (), {"index": idx})] and out == "CSV"
-                    what = "DataFrame.to_csv(index=<output_indices>) and no formatting option"
+                    ok = one and df.log[0][0] == "to_csv" and df.log[0][2].get("index") is idx and out == "CSV"
+                    what = "DataFrame.to_csv(index=<output_indices>) without any option that changes how numbers are written"
                 elif ext == "json":
-                    ok = df.log == [("to_json", (), {})] and out == "JSON"
-                    what = "DataFrame.to_json() and no precision option"
+                    ok = one and df.log[0][0] == "to_json" and out == "JSON"
+                    what = "DataFrame.to_json() without a precision option"
                 elif ext == "md":
                     ok = df.log == [("to_markdown", (), {"index": idx, "floatfmt": ".7g"})] and out == "MD"
                     what = "DataFrame.to_markdown(index=<output_indices>, floatfmt='.<significant digits>g')"
